@@ -722,19 +722,6 @@ def exp_zones_of(zones):
     return out
 
 
-def _skey_exp(r):
-    return (r[0], float(r[1]), -1e300 if r[2] is None else float(r[2]), -1e300 if r[3] is None else float(r[3]))
-
-
-def _skey_got(r):
-    def f(x):
-        try:
-            return -1e300 if x is None else float(x)
-        except (TypeError, ValueError):
-            return 1e300
-    return (str(r[0]), f(r[1]), f(r[2]), f(r[3]))
-
-
 def rescaled(got, want):
     """is got == want / 1000**k for some k >= 1 (the conversion applied k extra times)?"""
     if got is None or want is None or want == 0 or not isinstance(got, (int, float)) or got != got:
@@ -746,53 +733,73 @@ def rescaled(got, want):
     return False
 
 
+EXPLAINED = ("thermal_trip_point_rescaled", "zero_threshold_treated_as_missing")
+
+
+def row_viols(name, g, e, fahrenheit, ctx, thermal):
+    """complaints about one reported sensor g against one expected row e"""
+    sfx = ":fahrenheit" if fahrenheit else ""
+    lab, cur, hi, cr, zero = e
+    if fahrenheit:
+        cur, hi, cr = fahr(cur), fahr(hi), fahr(cr)
+    try:
+        glab, gcur, ghi, gcr = g.label, g.current, g.high, g.critical
+    except AttributeError:
+        return [("temps_wrong_type" + sfx, f"{name}: entry {g!r} lacks label/current/high/critical")]
+    viols = []
+    if glab != lab:
+        viols.append(("temp_label_wrong" + sfx, f"{name}: label got {glab!r} want {lab!r} {ctx}"))
+    if not close(gcur, cur):
+        viols.append(("temp_current_wrong" + sfx, f"{name}/{lab!r}: current got {gcur!r} want {float(cur)!r} {ctx}"))
+    for fld, gv, ev in (("high", ghi, hi), ("critical", gcr, cr)):
+        if close(gv, ev):
+            continue
+        if thermal and not fahrenheit and rescaled(gv, ev):
+            mech = "thermal_trip_point_rescaled"
+        elif zero:
+            mech = "zero_threshold_treated_as_missing" + sfx
+        else:
+            mech = ("thermal_threshold_wrong" if thermal else "temp_threshold_wrong") + sfx
+        viols.append((mech, f"{name}/{lab!r}: {fld} got {gv!r} want "
+                            f"{None if ev is None else float(ev)!r} (row got {tuple(g)!r}) {ctx}"))
+    return viols
+
+
 def compare_temps(got, exp, fahrenheit, ctx, thermal=False):
-    """got: psutil's dict; exp: name -> rows (deg C). -> (viols, n_compared)"""
+    """got: psutil's dict; exp: name -> rows (deg C). -> (viols, n_compared).
+    Order inside a chip name is free: rows are matched exactly first, then each leftover expected row takes the
+    leftover reported row that explains itself best."""
     viols = []
     sfx = ":fahrenheit" if fahrenheit else ""
     if not isinstance(got, dict):
         return [("temps_wrong_type" + sfx, f"got {got!r}")], 0
     n = 0
-    if set(got) != set(exp) or any(len(got[k]) != len(exp[k]) for k in exp):
-        shape_g = {k: len(v) for k, v in got.items()}
+    if set(got) != set(exp) or any(not isinstance(got[k], list) or len(got[k]) != len(exp[k]) for k in exp):
+        shape_g = {k: len(v) if isinstance(v, list) else v for k, v in got.items()}
         shape_e = {k: len(v) for k, v in exp.items()}
         return [("temps_sensor_set_wrong" + sfx, f"chips/sensor counts got {shape_g} want {shape_e} {ctx}")], 0
     for name in exp:
-        rows_e = sorted(exp[name], key=_skey_exp)
-        try:
-            rows_g = sorted(got[name], key=_skey_got)
-        except Exception as e:  # noqa: BLE001
-            viols.append(("temps_wrong_type" + sfx, f"{name}: {got[name]!r} ({e!r})"))
-            continue
-        for g, e in zip(rows_g, rows_e):
+        left_g = list(got[name])
+        left_e = []
+        for e in exp[name]:
             n += 1
-            lab, cur, hi, cr, zero = e
-            if fahrenheit:
-                cur, hi, cr = fahr(cur), fahr(hi), fahr(cr)
-            try:
-                glab, gcur, ghi, gcr = g.label, g.current, g.high, g.critical
-            except AttributeError:
-                viols.append(("temps_wrong_type" + sfx, f"{name}: entry {g!r} lacks label/current/high/critical"))
-                continue
-            if glab != lab:
-                viols.append(("temp_label_wrong" + sfx, f"{name}: label got {glab!r} want {lab!r} {ctx}"))
-            if not close(gcur, cur):
-                viols.append(("temp_current_wrong" + sfx,
-                              f"{name}/{lab!r}: current got {gcur!r} want {float(cur)!r} {ctx}"))
-            for fld, gv, ev in (("high", ghi, hi), ("critical", gcr, cr)):
-                if close(gv, ev):
-                    continue
-                if thermal and not fahrenheit and rescaled(gv, ev):
-                    mech = "thermal_trip_point_rescaled"
-                elif thermal and fahrenheit and ev is not None and gv is not None and \
-                        rescaled((gv - 32) * 5 / 9 if isinstance(gv, (int, float)) else None, (ev - 32) * 5 / 9):
-                    mech = "thermal_trip_point_rescaled"
-                elif zero:
-                    mech = "zero_threshold_treated_as_missing" + sfx
-                else:
-                    mech = ("thermal_threshold_wrong" if thermal else "temp_threshold_wrong") + sfx
-                viols.append((mech, f"{name}/{lab!r}: {fld} got {gv!r} want "
-                                    f"{None if ev is None else float(ev)!r} (row got {tuple(g)!r}) {ctx}"))
+            for i, g in enumerate(left_g):
+                if not row_viols(name, g, e, fahrenheit, ctx, thermal):
+                    del left_g[i]
+                    break
+            else:
+                left_e.append(e)
+        while left_e:
+            scored = []
+            for j, e in enumerate(left_e):
+                for i, g in enumerate(left_g):
+                    v = row_viols(name, g, e, fahrenheit, ctx, thermal)
+                    generic = sum(1 for m, _d in v if not m.startswith(EXPLAINED))
+                    scored.append((generic, len(v), j, i, v))
+            _generic, _n, j, i, v = min(scored, key=lambda t: t[:4])
+            del left_e[j]
+            del left_g[i]
+            viols.extend(v)
     return viols, n
 
 
@@ -841,13 +848,11 @@ def compare_fans(got, case, ctx):
 
 
 def bat_expect(b, ac, ps):
-    """-> dict(percent=Fraction|int|None(no metrics), plugged=set, secs=function(plugged)->list of acceptors)"""
+    """-> (percent: Fraction, set of acceptable power_plugged values)"""
     if b["fam"] != "capacity":
         percent = Fraction(b["now"], b["full"]) * 100
-    elif b["capacity"] is not None:
-        percent = Fraction(b["capacity"])
     else:
-        percent = None
+        percent = Fraction(b["capacity"])       # only the kernel's own percentage is exposed
     by_status = {None: {None}, "Discharging": {False}, "Charging": {True}, "Full": {True},
                  "Not charging": {None, True}, "Unknown": {None}}[b["status"]]
     if ac is None:
@@ -880,16 +885,11 @@ def compare_battery(got, case, ps, ctx):
         if got is None:
             return []
         return [("battery_reported_without_battery", f"got {got!r} {ctx}")]
-    reasons = []
+    per_bat = []
     for b in case["bats"]:
         percent, plugged = bat_expect(b, case["ac"], ps)
-        if percent is None:
-            if got is None:
-                return []
-            reasons.append(f"{b['name']}: want None (no metrics)")
-            continue
         if got is None:
-            reasons.append(("battery_none_with_battery", f"{b['name']}: got None want percent {float(percent)!r}"))
+            per_bat.append([("battery_none_with_battery", f"{b['name']}: got None want percent {float(percent)!r}")])
             continue
         try:
             gp, gs, gpl = got.percent, got.secsleft, got.power_plugged
@@ -906,11 +906,10 @@ def compare_battery(got, case, ps, ctx):
                 bad.append(("battery_secsleft_wrong", f"{b['name']}: secsleft got {gs!r} want {why}"))
         if not bad:
             return []
-        reasons.extend(bad)
-    first = next((r for r in reasons if isinstance(r, tuple)), None)
-    if first is None:
-        return [("battery_wrong", f"got {got!r}; {reasons} {ctx}")]
-    return [(first[0], f"{first[1]} (got {got!r}) {ctx}")]
+        per_bat.append(bad)
+    # complaints against the battery the result resembles most
+    bad = min(per_bat, key=len)
+    return [(bad[0][0], "; ".join(d for _m, d in bad) + f" (got {got!r}) {ctx}")]
 
 
 def exp_freq(case):
